@@ -24,3 +24,4 @@ for p in "$@"; do
   echo "check $p: exit=$c  $(grep -c '^VIOLATION' "$S/check_$p.log") violation lines; $(tail -1 "$S/check_$p.log")"
 done
 git -C /repo worktree remove --force "$W"
+/venv/bin/python /verif/tools/seed_meta.py "$name" "$d0" "$d1" "$@"
